@@ -1802,6 +1802,11 @@ class Interp:
         if isinstance(op, ast.Add) and (isinstance(a, Shape) or isinstance(b, Shape)) and isinstance(a, (Shape, tuple)) and isinstance(b, (Shape, tuple)):
             # (n,) + x.shape: a shape spelled as a tuple of extents
             return ext_(a) + ext_(b)
+        if isinstance(op, ast.Add) and (isinstance(a, _SelectVal) or isinstance(b, _SelectVal)) and _is_text(a) and _is_text(b):
+            # text joined to one of two pieces of text chosen by a data-dependent condition: joined to each
+            if isinstance(a, _SelectVal):
+                return _SelectVal(a.cond, self._binop(op, a.a, b, node), self._binop(op, a.b, b, node))
+            return _SelectVal(b.cond, self._binop(op, a, b.a, node), self._binop(op, a, b.b, node))
         if isinstance(op, ast.Add) and (isinstance(a, Fmt) or isinstance(b, Fmt)) and isinstance(a, (str, Fmt)) and isinstance(b, (str, Fmt)):
             fa, va = (a.fmt, a.values) if isinstance(a, Fmt) else (a.replace('%', '%%'), ())
             fb, vb = (b.fmt, b.values) if isinstance(b, Fmt) else (b.replace('%', '%%'), ())
@@ -2873,6 +2878,8 @@ class Interp:
                     # a concrete number of elements: a fresh axis that only counts positions
                     self._n_lists = getattr(self, '_n_lists', 0) + 1
                     lab_ = 'pos#%d' % self._n_lists
+                    if sh == 0:
+                        lab_ = 'pos#%d<empty>' % self._n_lists          # (an array of no elements: recognisable where it is merged with the general case)
                     self.axis_len[lab_] = sh
                     r_ = Arr((lab_,), num(c), unit=num(1), fresh=True, dt=dt)
                     r_.dt_src = dta_.src if isinstance(dta_, _DtypeOf) else None
@@ -4560,6 +4567,12 @@ def merge_val(a, b, cond, node):
         bb = b if isinstance(b, Arr) else Arr((), num(b))
         if aa.dims == bb.dims and aa.mask is None and bb.mask is None:
             return Arr(aa.dims, cond * aa.poly + alg.b_not(cond) * bb.poly)
+        if isinstance(a, Arr) and isinstance(b, Arr) and a.ndim == 1 and b.ndim == 1:
+            # `if len(x) == 0: <an array of no elements> else: <one element per element of x>`: what holds for every element of the general case holds
+            # for the elements of the empty one - there are none
+            for e_, g_, c_ in ((a, b, cond), (b, a, alg.b_not(cond))):
+                if str(e_.dims[0]).endswith('<empty>') and g_.dims[0] is not None and c_ == alg.eq(alg.count(g_.dims[0]), 0):
+                    return g_
         if isinstance(a, Arr) and isinstance(b, Arr) and a.ndim >= 1 and b.ndim >= 1:
             # two arrays of different extent (a selection of an array, or the whole of it): kept apart; what is computed from the value is computed from each
             return _ArrSelect(cond, a, b)
@@ -4597,6 +4610,10 @@ def _is_index_alt(v):
 def ext_(s_):
     """a shape as the tuple of its extents"""
     return tuple((1 if d_ is None else Arr((), alg.count(d_), unit=num(1))) for d_ in s_.dims) if isinstance(s_, Shape) else tuple(s_)
+
+
+def _is_text(v):
+    return isinstance(v, (str, Fmt)) or isinstance(v, _SelectVal) and _is_text(v.a) and _is_text(v.b)
 
 
 def _pure_fn(fi):
